@@ -448,7 +448,7 @@ pub const C01_PROBES: &[&str] = &["burst_of_1100plus_reply_records",
     "exact_fill_read", "params_3plus_records", "long_form_small_len", "pair_spans_3_records", "four_byte_length",
     "cut_inside_length_prefix", "tight_buffer", "pair_over_one_record", "buffer_holds_whole_huge_record",
 ];
-pub const C04REQ_PROBES: &[&str] = &["abort_during_params", "exact_fill_read", "params_3plus_records", "cut_inside_length_prefix"];
+pub const C04REQ_PROBES: &[&str] = &["getvalues_over_256_pairs", "abort_during_params", "exact_fill_read", "params_3plus_records", "cut_inside_length_prefix"];
 pub const C06_PROBES: &[&str] = &["exact_fill_read", "pair_at_bound", "pair_beyond_buffer", "tight_limit_ok", "bufsize_table", "getvalues_pair_beyond_buffer"];
 #[allow(dead_code)]
 pub const D1REQ_PROBES: &[&str] = &[
@@ -514,7 +514,19 @@ pub fn c04_req(cx: &mut Ctx) -> VResult {
     cx.declare(&[], C04REQ_PROBES);
     cx.declare(&[], NOISE_PROBES);
     let o = PreOpts { allow_abort: true, noise_num: 2 + cx.ch.pick(5), big_ok: false, max_pairs: 6, force_buf: None };
-    let case = gen_precase(cx, &o);
+    let mut case = gen_precase(cx, &o);
+    let many_gv = cx.ch.chance(1, 40);
+    if many_gv {
+        // scale: one GetValues query with hundreds of pairs ahead of everything, in a buffer that holds it whole
+        let body = gen_getvalues_many(cx);
+        let pad = gen_padding(cx);
+        if cx.ch.chance(3, 4) { case.bufsize = case.bufsize.max(body.len() + 300 + cx.ch.range(0, 5000)); }
+        let r = Rec::new(GETVALUES, 0, body, pad);
+        let mut w = encode_all(std::slice::from_ref(&r));
+        w.extend_from_slice(&case.wire);
+        case.wire = w;
+        case.recs.insert(0, r);
+    }
     let m = model::preamble(&case.wire, 0, case.max_conns);
     note_reach(cx, &case, &m);
     if !matches!(m.outcome, PreOutcome::Done(_)) {
@@ -525,7 +537,7 @@ pub fn c04_req(cx: &mut Ctx) -> VResult {
             vcheck!(r.bytes.len() <= 104, "harness_model", "model GetValuesResult longer than RESPONSE_LEN");
         }
     }
-    let style = if cx.ch.chance(1, 3) { Style::OneByte } else { pick_style(cx) };
+    let style = if many_gv && cx.ch.chance(3, 4) { if cx.ch.chance(1, 2) { Style::Whole } else { Style::Large } } else if cx.ch.chance(1, 3) { Style::OneByte } else { pick_style(cx) };
     sample_of(cx, &case, style);
     cx.nontrivial |= !m.replies.is_empty();
     run_precase(cx, &case, &m, style, "C04")?;
